@@ -175,6 +175,19 @@ CLAIMED = {
         'FileFinder directory caches - dependencies, assumed; same-tick rewrites not decided.',
         'contract-based deductive verification (PyVC) + AST obligations; thin by nature (see level_note)',
         'DESIGN.md 6/C09'),
+    'C13': (
+        'Deductive effect contracts: in DirectObjectAccess.py__bool__, has_iter, py__simple_getitem__ and '
+        'py__iter__list every operation on the live object that can run user code (truth test, iteration, '
+        'subscription) is proved to be reachable only under "unsafe executions requested" or under an EXACT builtin '
+        'type test (path-sensitive effect obligations; isinstance-style weakening fails them); AST obligations: the '
+        'allowed-type constants contain only builtin types, the setting is copied onto the inference state and has no '
+        'other writer, callers pass safe = not allow_unsafe_executions, descriptor hits become empty names, '
+        'is_allowed_getattr decides statically, values() asks for every name of dir().',
+        'Trusted: getattr_static runs no user code; exact builtin types have no user special methods; normal reads '
+        'of __class__/__iter__/__getitem__/__mro__/__bases__ and isinstance()/inspect.* on live objects, '
+        'py__getitem__all_values on list/dict subclasses and mixed.py are not decided.',
+        'contract-based deductive verification (PyVC path-sensitive effect obligations) + AST obligations',
+        'DESIGN.md 6/C13'),
 }
 
 NOT_APPLICABLE = {
